@@ -48,7 +48,8 @@ class IdentityEliminationPass(ir.passes.InPlacePass):
     2. If `y` is an output of a graph, and `x` is not an input of any graph,
        we can still do the elimination, but the value `x` should be renamed to be `y`.
     3. If `y` is a graph-output and `x` is a graph-input, we cannot eliminate
-       the node. It should be retained.
+       the node. It should be retained. The same holds when `y` is an output of a
+       subgraph and `x` is a value captured from an enclosing graph.
     """
 
     def call(self, model: ir.Model) -> ir.passes.PassResult:
@@ -98,6 +99,14 @@ class IdentityEliminationPass(ir.passes.InPlacePass):
             input_value.is_graph_input() or input_value.is_initializer()
         ):
             return False
+
+        # Case 3b: the output is an output of this (sub)graph but the input is produced in another
+        # graph (an outer-scope value captured by a subgraph). The output of a graph must be produced
+        # inside that graph, so the node has to stay.
+        if output_is_graph_output:
+            producer = input_value.producer()
+            if producer is None or producer.graph is not graph_like:
+                return False
 
         # Copy over shape/type if the output has more complete information
         input_value.shape = _merge_shapes(input_value.shape, output_value.shape)
